@@ -438,6 +438,181 @@ fn fixed_cases() -> Vec<Case> {
     ]
 }
 
+
+// ---------------------------------------------------------------------------------------------
+// name-form family (generated): every composition tag x every way the target value comes about x
+// every placement.  The property says "the named template (or the first existing one of a list)":
+// what counts is which names the value holds, not how it is stored or produced.
+
+const LONG_NAME: &str = "partials/a_rather_long_directory_name/inc_long_template.txt";
+
+enum Target {
+    /// candidate names in order
+    Names(Vec<&'static str>),
+    /// not a name at all: must be an error
+    Invalid,
+}
+
+fn name_forms() -> Vec<(&'static str, &'static str, Target, bool)> {
+    use Target::*;
+    // (label, expression, target, single-use value)
+    vec![
+        ("lit", "'inc'", Names(vec!["inc"]), false),
+        ("lit_missing", "'nope'", Names(vec!["nope"]), false),
+        ("ctx_inline", "s_inc", Names(vec!["inc"]), false),
+        ("ctx_heap", "s_long", Names(vec![LONG_NAME]), false),
+        ("ctx_safe", "s_safe", Names(vec!["inc2"]), false),
+        ("concat", "'in' ~ 'c'", Names(vec!["inc"]), false),
+        ("concat_ctx", "s_in ~ 'c2'", Names(vec!["inc2"]), false),
+        ("filter_lower", "'INC'|lower", Names(vec!["inc"]), false),
+        ("filter_default", "nothing|default('inc2')", Names(vec!["inc2"]), false),
+        ("cond", "'inc' if v == 1 else 'inc2'", Names(vec!["inc"]), false),
+        ("subscript", "names[1]", Names(vec!["inc2"]), false),
+        ("attr", "cfg.partial", Names(vec!["inc"]), false),
+        ("list_lit", "['nope', 'inc2', 'inc']", Names(vec!["nope", "inc2", "inc"]), false),
+        ("list_lit_single", "['inc']", Names(vec!["inc"]), false),
+        ("tuple_lit", "('nope', 'inc')", Names(vec!["nope", "inc"]), false),
+        ("list_lit_dynamic", "['nope', s_inc]", Names(vec!["nope", "inc"]), false),
+        ("list_all_missing", "['nope', 'nada']", Names(vec!["nope", "nada"]), false),
+        ("ctx_list", "names", Names(vec!["nope", "inc2", "inc"]), false),
+        ("ctx_tuple", "names_t", Names(vec!["nope", "inc"]), false),
+        ("ctx_list_heap_first", "names_long", Names(vec!["nope", LONG_NAME, "inc"]), false),
+        ("slice_tail", "names[1:]", Names(vec!["inc2", "inc"]), false),
+        ("slice_head", "names[:2]", Names(vec!["nope", "inc2"]), false),
+        ("slice_last", "names[2:]", Names(vec!["inc"]), false),
+        ("slice_rev", "names[::-1]", Names(vec!["inc", "inc2", "nope"]), false),
+        ("reverse", "names|reverse", Names(vec!["inc", "inc2", "nope"]), false),
+        ("list_filter", "names|list", Names(vec!["nope", "inc2", "inc"]), false),
+        ("map_string", "names|map('string')", Names(vec!["nope", "inc2", "inc"]), false),
+        ("map_lower", "['NOPE', 'INC']|map('lower')", Names(vec!["nope", "inc"]), false),
+        ("select", "names|select('string')", Names(vec!["nope", "inc2", "inc"]), false),
+        ("reject", "names|reject('eq', 'inc2')", Names(vec!["nope", "inc"]), false),
+        ("concat_lists", "['nope'] + names[2:]", Names(vec!["nope", "inc"]), false),
+        ("unique", "['nope', 'nope', 'inc']|unique", Names(vec!["nope", "inc"]), false),
+        ("sort", "['nope', 'inc']|sort", Names(vec!["inc", "nope"]), false),
+        ("batch_first", "names|batch(2)|first", Names(vec!["nope", "inc2"]), false),
+        ("host_iterable", "lazy", Names(vec!["nope", "inc2", "inc"]), false),
+        ("host_iterable_unsized", "lazy_unsized", Names(vec!["nope", "inc"]), false),
+        ("host_one_shot", "oneshot", Names(vec!["nope", "inc"]), true),
+        ("split", "'nope,inc'|split(',')", Names(vec!["nope", "inc"]), false),
+        ("int", "42", Invalid, false),
+        ("float", "4.5", Invalid, false),
+        ("bool", "true", Invalid, false),
+    ]
+}
+
+fn name_form_family(acc: &Acc) {
+    let exists = |n: &str| n == "inc" || n == "inc2" || n == LONG_NAME;
+    let body = |n: &str| -> (String, String) {
+        let tag = if n == "inc" { "I" } else if n == "inc2" { "J" } else { "K" };
+        (format!("[{}{{{{ v }}}}]{{% macro m() %}}<{}>{{% endmacro %}}", tag, tag), tag.to_string())
+    };
+    // (tag label, tag text with EXPR, what it renders for the template tagged T, accepts lists)
+    let tags: [(&str, &str, fn(&str) -> String); 5] = [
+        ("include", "{% include EXPR %}", |t| format!("[{}1]", t)),
+        ("include_ignore", "{% include EXPR ignore missing %}", |t| format!("[{}1]", t)),
+        ("import", "{% import EXPR as l %}{{ l.m() }}", |t| format!("<{}>", t)),
+        ("from_import", "{% from EXPR import m %}{{ m() }}", |t| format!("<{}>", t)),
+        ("extends", "{% extends EXPR %}", |t| format!("[{}1]", t)),
+    ];
+    let placements: [(&str, &str, usize); 6] = [
+        ("top", "a|TAG|b", 1),
+        ("loop", "a|{% for i_ in [1, 2] %}TAG{% endfor %}|b", 2),
+        ("macro", "{% macro q() %}TAG{% endmacro %}a|{{ q() }}|b", 1),
+        ("block", "a|{% block blk %}TAG{% endblock %}|b", 1),
+        ("set_block", "{% set cap %}TAG{% endset %}a|{{ cap }}|b", 1),
+        ("if_with", "a|{% if v == 1 %}{% with z = 2 %}TAG{% endwith %}{% endif %}|b", 1),
+    ];
+    for (flabel, expr, target, single_use) in name_forms() {
+        for (tlabel, tag, rendered) in tags {
+            for (plabel, wrap, times) in placements {
+                let string_form = matches!(flabel, "lit" | "lit_missing" | "ctx_inline" | "ctx_heap" | "ctx_safe" | "concat" | "concat_ctx" | "filter_lower" | "filter_default" | "cond" | "subscript" | "attr" | "int" | "float" | "bool");
+                if tlabel == "extends" && (plabel != "top" || !string_form) {
+                    // inheritance takes one name and is a top-level statement
+                    continue;
+                }
+                if single_use && times > 1 {
+                    continue;
+                }
+                acc.eval(1);
+                let src = if tlabel == "extends" { tag.replace("EXPR", expr) } else { wrap.replace("TAG", &tag.replace("EXPR", expr)) };
+                let expect: Result<String, &str> = match &target {
+                    Target::Invalid => Err("any"),
+                    Target::Names(ns) => match ns.iter().find(|n| exists(n)) {
+                        Some(n) => {
+                            let inner = rendered(&body(n).1).repeat(times);
+                            Ok(if tlabel == "extends" { inner } else { format!("a|{}|b", inner) })
+                        }
+                        None if tlabel == "include_ignore" => Ok("a||b".to_string()),
+                        None => Err("TemplateNotFound"),
+                    },
+                };
+                let (tx, rx) = std::sync::mpsc::channel();
+                let src2 = src.clone();
+                std::thread::Builder::new()
+                    .stack_size(8 << 20)
+                    .spawn(move || {
+                        let r = catch(|| {
+                            let mut env = Environment::new();
+                            for n in ["inc", "inc2", LONG_NAME] {
+                                let tag = if n == "inc" { "I" } else if n == "inc2" { "J" } else { "K" };
+                                env.add_template_owned(n.to_string(), format!("[{}{{{{ v }}}}]{{% macro m() %}}<{}>{{% endmacro %}}", tag, tag)).map_err(|e| format!("{:?}", e.kind()))?;
+                            }
+                            env.add_template_owned("main".to_string(), src2).map_err(|e| format!("{:?}", e.kind()))?;
+                            let names = vec!["nope", "inc2", "inc"];
+                            let ctx = context! {
+                                v => 1,
+                                s_inc => "inc",
+                                s_in => "in",
+                                s_long => LONG_NAME,
+                                s_safe => Value::from_safe_string("inc2".into()),
+                                names => names.clone(),
+                                names_t => Value::from(minijinja::value::Tuple::from(vec![Value::from("nope"), Value::from("inc")])),
+                                names_long => vec!["nope", LONG_NAME, "inc"],
+                                cfg => context! { partial => "inc" },
+                                lazy => Value::make_iterable(|| vec!["nope", "inc2", "inc"].into_iter()),
+                                lazy_unsized => Value::make_iterable(|| vec!["nope", "skip", "inc"].into_iter().filter(|x| *x != "skip")),
+                                oneshot => Value::make_one_shot_iterator(vec!["nope", "inc"].into_iter()),
+                            };
+                            env.get_template("main").map_err(|e| format!("{:?}", e.kind()))?.render(ctx).map_err(|e| format!("{:?}", e.kind()))
+                        });
+                        let _ = tx.send(r);
+                    })
+                    .unwrap();
+                let got: Result<Result<String, String>, String> = match rx.recv_timeout(std::time::Duration::from_secs(10)) {
+                    Ok(r) => r,
+                    Err(_) => Err("HANG: no result within 10 s".into()),
+                };
+                let ok = match (&got, &expect) {
+                    (Ok(Ok(o)), Ok(e)) => o == e,
+                    (Ok(Err(_)), Err("any")) => true,
+                    (Ok(Err(k)), Err(e)) => k == e,
+                    _ => false,
+                };
+                if ok {
+                    acc.outcome(if expect.is_ok() { "name form resolves to the first existing template" } else { "name form fails with the expected error" });
+                    acc.nontrivial(fnv(format!("nf:{}:{}:{}", flabel, tlabel, plabel).as_bytes()));
+                } else {
+                    let class = match &got {
+                        Err(m) if m.starts_with("HANG") => "hang",
+                        Err(_) => "panic",
+                        Ok(Ok(_)) if expect.is_err() => "reported_as_success",
+                        Ok(Err(_)) if expect.is_ok() => "unexpected_error",
+                        Ok(Err(_)) => "wrong_error_kind",
+                        _ => "output_differs",
+                    };
+                    acc.fail(Failure {
+                        key: format!("compose name_form {} tag={} form={}", class, tlabel, flabel),
+                        case: format!("{} / {} / {}", flabel, tlabel, plabel),
+                        detail: format!("main = {:?}: got {:?}, expected {:?}", src, got, expect),
+                        replay: json!({"kind": "name_form", "form": flabel, "tag": tlabel, "placement": plabel}),
+                    });
+                }
+            }
+        }
+    }
+}
+
 fn run_case(c: &Case) -> Result<Result<String, String>, String> {
     run_templates(c.templates.iter().map(|(a, b)| (a.to_string(), b.to_string())).collect(), c.main.to_string())
 }
@@ -486,6 +661,8 @@ pub fn main(args: Args) -> i32 {
             let reach = j["reach"].as_u64().unwrap_or(0) as usize;
             println!("reach: {:?}\nresolver: {:?}\nengine:   {:?}", REACHES[reach], resolve(&templates).map(|o| reach_expect(reach, &o)), render_chain(&templates, reach));
             check_chain(j["len"].as_u64().unwrap() as usize, j["code"].as_u64().unwrap(), j["with_c"].as_bool().unwrap(), form, reach, &acc, &mut l);
+        } else if j["kind"] == "name_form" {
+            name_form_family(&acc);
         } else {
             for c in fixed_cases().iter().filter(|c| Some(c.name) == j["name"].as_str()) {
                 println!("{:?}", run_case(c));
@@ -572,6 +749,7 @@ pub fn main(args: Args) -> i32 {
             });
         }
     }
+    name_form_family(&acc);
     // composition does not wear out: every fixed case that renders is included REPEAT times from one
     // host render and must give its output REPEAT times (includes, imports and inheritance charge and
     // release per-render resources such as the recursion budget; nothing may be left behind)
